@@ -6,8 +6,9 @@ ids="${IDS:-C01 C02 C03 C04 C05 C06 C07 C08 C09 C10 C11 C12 C13 C14 C15 C16 C17 
 rc=0
 for p in mutants/benign/${1:-*}.diff; do
   S=$(mktemp -d /tmp/benign.XXXXXX)
+  abs="$(readlink -f "$p")"
   git -C /repo archive HEAD | tar -x -C "$S"
-  ( cd "$S" && git init -q && git apply "$(readlink -f "$p")" ) || { echo "PATCH-FAILED $p"; rm -rf "$S"; continue; }
+  ( cd "$S" && git init -q && git apply "$abs" ) || { echo "PATCH-FAILED $p"; rm -rf "$S"; continue; }
   ( cd "$S" && go build ./... ) || { echo "BUILD-FAILED $p"; rm -rf "$S"; continue; }
   for id in $ids; do
     out=$(VERIF_REPO="$S" VERIF_SCRATCH_OUT="$S/out" ./run "$id" quick 2>&1); st=$?
